@@ -28,6 +28,15 @@ type funcPrint struct {
 type funcBaseline map[string]map[string]*funcPrint // package dir -> raw key -> print
 
 const funcBaselinePath = "/verif/baseline/functions.json"
+const typeBaselinePath = "/verif/baseline/types.json"
+
+func loadTypeBaseline() map[string]map[string][]string {
+	tb := map[string]map[string][]string{}
+	if data, err := os.ReadFile(typeBaselinePath); err == nil {
+		json.Unmarshal(data, &tb)
+	}
+	return tb
+}
 
 func loadFuncBaseline() funcBaseline {
 	fb := funcBaseline{}
@@ -56,6 +65,13 @@ func cmdFunctions(args []string) {
 		}
 		fb[dir] = m
 	}
+	tb := map[string]map[string][]string{}
+	for _, dir := range pkgDirs {
+		tb[dir] = structShapes[repoDir+"/"+dir]
+	}
+	tout, _ := json.MarshalIndent(tb, "", " ")
+	os.MkdirAll("/verif/baseline", 0o755)
+	os.WriteFile(typeBaselinePath, append(tout, '\n'), 0o644)
 	out, _ := json.MarshalIndent(fb, "", " ")
 	os.MkdirAll("/verif/baseline", 0o755)
 	if err := os.WriteFile(funcBaselinePath, append(out, '\n'), 0o644); err != nil {
